@@ -546,3 +546,41 @@ func TestF61_HostnameOfBracketedIPv6(t *testing.T) {
 		}
 	}
 }
+
+// F62 (C18): a User-Agent or Referer configured as a header (SetHeader / AddHeader, on the request or on the client)
+// did not arrive: parserRequestHeader wrote the default user agent and the (empty) client referer over the
+// merged headers unconditionally.
+func TestF62_UserAgentAndRefererConfiguredAsHeadersArrive(t *testing.T) {
+	app := fiber.New()
+	app.Get("/", func(c fiber.Ctx) error {
+		return c.SendString(c.Get("User-Agent") + "|" + c.Get("Referer"))
+	})
+	ln, err := net.Listen("tcp", "127.0.0.1:0")
+	if err != nil {
+		t.Skip("no loopback listener")
+	}
+	go func() { _ = app.Listener(ln, fiber.ListenConfig{DisableStartupMessage: true}) }()
+	defer func() { _ = app.Shutdown() }()
+	url := "http://" + ln.Addr().String() + "/"
+	get := func(r *client.Request) string {
+		resp, err := r.Get(url)
+		if err != nil {
+			t.Fatal(err)
+		}
+		defer resp.Close()
+		return string(resp.Body())
+	}
+	if got := get(client.New().R().SetHeader("User-Agent", "custom/1").SetHeader("Referer", "http://r.example/")); got != "custom/1|http://r.example/" {
+		t.Errorf("request-level headers: server saw %q, want \"custom/1|http://r.example/\"", got)
+	}
+	if got := get(client.New().SetHeader("User-Agent", "fromclient/1").SetHeader("Referer", "http://c.example/").R()); got != "fromclient/1|http://c.example/" {
+		t.Errorf("client-level headers: server saw %q, want \"fromclient/1|http://c.example/\"", got)
+	}
+	// the dedicated setters keep their precedence, and the default user agent is still sent when nothing is configured
+	if got := get(client.New().R().SetHeader("User-Agent", "custom/1").SetUserAgent("explicit/2").SetReferer("http://x.example/")); got != "explicit/2|http://x.example/" {
+		t.Errorf("SetUserAgent/SetReferer: server saw %q", got)
+	}
+	if got := get(client.New().R()); got != "fiber|" {
+		t.Errorf("nothing configured: server saw %q, want \"fiber|\"", got)
+	}
+}
